@@ -37,6 +37,7 @@ type RunSpec struct {
 	SplitDepth int              `json:"split_depth,omitempty"`
 	SampleEnds int              `json:"sample_ends,omitempty"`
 	LogQueries string           `json:"log_queries,omitempty"`
+	WithPkgs   []string         `json:"with_pkgs,omitempty"`
 	AbstractConv bool           `json:"abstract_conv,omitempty"`
 	ExactFloat bool             `json:"exact_float,omitempty"`
 }
@@ -93,6 +94,26 @@ func PackageName(dir string) (string, error) {
 
 // Overlay builds the overlay map for one harness package: every .go file of
 // harnessDir/pkg plus the generated runtime (symbolic flavour).
+// OverlayAll merges the overlays of the obligation's package and of additional harness packages
+// (their harness files, renames and runtime), e.g. the text index's injected analyser when a
+// shard-level harness is run.
+func OverlayAll(repoDir, harnessDir, pkg string, with []string) (map[string][]byte, error) {
+	ov, err := Overlay(repoDir, harnessDir, pkg, false)
+	if err != nil {
+		return nil, err
+	}
+	for _, w := range with {
+		o2, err := Overlay(repoDir, harnessDir, w, false)
+		if err != nil {
+			return nil, err
+		}
+		for k, v := range o2 {
+			ov[k] = v
+		}
+	}
+	return ov, nil
+}
+
 func Overlay(repoDir, harnessDir, pkg string, native bool) (map[string][]byte, error) {
 	pkgDir := filepath.Join(repoDir, pkg)
 	name, err := PackageName(pkgDir)
@@ -153,7 +174,7 @@ func Overlay(repoDir, harnessDir, pkg string, native bool) (map[string][]byte, e
 func Run(spec RunSpec) *Result {
 	res := &Result{Fn: spec.Fn, Pkg: spec.Pkg, Covers: map[string]int{}, Inconclusive: map[string]int{}}
 	t0 := time.Now()
-	ov, err := Overlay(spec.RepoDir, spec.HarnessDir, spec.Pkg, false)
+	ov, err := OverlayAll(spec.RepoDir, spec.HarnessDir, spec.Pkg, spec.WithPkgs)
 	if err != nil {
 		res.Error = err.Error()
 		return res
